@@ -17,7 +17,6 @@ each construct); chains of 1-3 hosts are composed around the raiser.
 import itertools
 import re
 import sys
-import traceback
 import types
 
 from hv.common import rng_for
